@@ -2,6 +2,7 @@ package simrt
 
 import (
 	"reflect"
+	"time"
 )
 
 // R12: select statements with several receive cases. Go picks among the ready cases of a
@@ -48,6 +49,7 @@ func Select(site string, chans ...interface{}) (int, reflect.Value) {
 					}
 				}
 			}
+			selectJitter(g, site)
 			return i, x
 		}
 	}
@@ -57,7 +59,18 @@ func Select(site string, chans ...interface{}) (int, reflect.Value) {
 	}
 	i, x, _ := reflect.Select(cases)
 	enterG(g)
+	selectJitter(g, site)
 	return i, x
+}
+
+func selectJitter(g *G, site string) {
+	w := Cur()
+	if w == nil || w.SelectJitter <= 0 {
+		return
+	}
+	if d := w.Rand("seljit:"+w.GSeq(g, "seljit:"+site)) % uint64(2*w.SelectJitter+1); d > uint64(w.SelectJitter) {
+		Sleep(time.Duration(d-uint64(w.SelectJitter)) * time.Nanosecond) // half of the receives: 1..SelectJitter ns
+	}
 }
 
 // RecvAs converts the value Select received from c to c's element type.
